@@ -1180,7 +1180,7 @@ func c09Corners(rng *rand.Rand) []*c09Build {
 	}
 
 	// number of distinct trigrams at b-tree bucket multiples: N three-rune documents
-	ns := []int{513, 1024, 1025}
+	ns := []int{513, 1025, 1600} // 1600: three b-tree buckets, the second split has happened
 	if verifkit.Thorough() {
 		ns = []int{1, 2, 511, 512, 513, 1023, 1024, 1025, 1536, 1537, 2048, 2049, 2560}
 	}
@@ -1376,7 +1376,7 @@ func TestVerif_C09_Generated(t *testing.T) {
 	rn := c09Open(t)
 	defer rn.tr.Close()
 	builds := c09Corners(verifkit.Rng(1))
-	n := verifkit.EnvInt("C09_RANDOM", verifkit.Pick(120, 2500))
+	n := verifkit.EnvInt("C09_RANDOM", verifkit.Pick(120, 1500))
 	for i := 0; i < n; i++ {
 		builds = append(builds, c09RandBuild(verifkit.Rng(int64(100+i)), i))
 	}
